@@ -518,18 +518,6 @@ func oneList(r *ev.Run, c *ev.Case, n, pat, realPos int, realOK bool) {
 			r.Violation(c, "run-fails-although-a-handler-accepted:"+sig, err.Error(), rec)
 			return
 		}
-		// handlers after the first accepting one are not consulted
-		seenFirst := false
-		for _, s := range stubs {
-			if s.name == firstAccept {
-				seenFirst = true
-				continue
-			}
-			if seenFirst && s.authCalls > 0 {
-				r.Violation(c, "handler-after-first-accepting-consulted:"+sig, fmt.Sprintf("log=%v", log), rec)
-				return
-			}
-		}
 		// the CSR that reached the signer is the first accepting handler's
 		if firstAccept != "real" {
 			for _, cl := range signer.Calls {
